@@ -10,10 +10,13 @@ CONSTANTS
   MaxUpdate = 1
   ClearOnSet = TRUE
   ClearOnDelete = TRUE
+  BareKeyShortcut = FALSE
   Depth = 4
 CONSTRAINT Bound
 VIEW View
 INVARIANT WellFormedMaps
 INVARIANT NeverStale
 INVARIANT MemoCoherent
+INVARIANT FirstOfBest
+INVARIANT ShortcutInsideRule
 PROPERTY MCIndependent
